@@ -155,13 +155,13 @@ Proof.
   intros HJ. pose proof HJ as (Hs & Hck & Hr1 & Hr2).
   destruct Hck as [Hbv Hk]. pose proof Hbv as (Hok & V1 & V2).
   assert (F1 : forall id c, find1 id (cs1 s) = Some c ->
-             rrows_ok1 (evl1_of (id1 c) b) c /\
-             heqv1 (rspec_evs1 (evl1_of (id1 c) b) (proj1 c)) (spec1 buffer (neg1 c) id K)).
+             rrows_ok1 (revl1_of (id1 c) b) c /\
+             heqv1 (rspec_evs1 (revl1_of (id1 c) b) (proj1 c)) (spec1 buffer (neg1 c) id K)).
   { intros id c Ef. destruct (row_facts1 _ _ _ _ _ HJ Ef) as (Hq & _ & Hid & Hng).
-    pose proof (spec1_cinv _ _ _ _ _ _ Hk Hng) as Hc. rewrite Hid.
+    pose proof (spec1_cinv _ _ _ _ _ _ Hk Hng) as Hc. rewrite Hid, revl1_rorder.
     rewrite spec1_cons in Hq. set (x := spec1 buffer (neg1 c) id K) in *.
     destruct (evl_dec (evl1_of id b)) as [Ev|Ev].
-    - rewrite Ev. split; [exact I|]. cbn [rspec_evs1 fold_left].
+    - rewrite Ev. split; [exact I|]. cbn [rorder1 filter app rspec_evs1 fold_left].
       eapply heqv1_trans; [exact Hq|]. apply spec_block1_none; auto.
     - destruct (V1 id Ev) as (ng & Hn & Hv). assert (ng = neg1 c) as -> by congruence. fold x in Hv.
       rewrite (spec_block1_some _ _ _ _ _ Ev Hc Hv) in Hq.
@@ -187,7 +187,8 @@ Proof.
   assert (I1 : forall id c, find1 id (cs1 s) = Some c -> id1 c = id) by (intros id c Ef; apply (find1_in_ids _ _ _ Ef)).
   assert (I2 : forall id c, find2 id (cs2 s) = Some c -> id2 c = id) by (intros id c Ef; apply (find2_in_ids _ _ _ Ef)).
   destruct (revert_block_rows b s Hs) as (s' & E & Hs' & Hf1 & Hf2).
-  { intros id Ev. destruct (V1 id Ev) as (ng & Hn & _). unfold negof1 in Hn. destruct (find1 id (cs1 s)); [discriminate|discriminate]. }
+  { intros id Ev. assert (Ev' : evl1_of id b <> []) by (intros E0; apply Ev; rewrite revl1_rorder, E0; reflexivity).
+    destruct (V1 id Ev') as (ng & Hn & _). unfold negof1 in Hn. destruct (find1 id (cs1 s)); [discriminate|discriminate]. }
   { intros id Ev. destruct (V2 id Ev) as (ng & Hn & _). unfold negof2 in Hn. destruct (find2 id (cs2 s)); [discriminate|discriminate]. }
   { intros id c Ef. destruct (F1 id c Ef) as (P & _). rewrite (I1 id c Ef) in P. exact P. }
   { intros id c Ef. destruct (F2 id c Ef) as (P & _). rewrite (I2 id c Ef) in P. exact P. }
